@@ -69,6 +69,56 @@ def structure_never_fails(rep):
                                "wire": wire, "verdict": v[:2]})
 
 
+def materialise_through_call(rep):
+    """'any schema-valid reply can be materialised as its result class': every action of both versions through the
+    real call() in ONE process, the two versions interleaved (for an action both versions have, alternately 1.6
+    first and 2.0.1 first), the reply being the schema instance with every property; the object call() returns
+    must be an instance of that version's own call_result class carrying the reply's values"""
+    import importlib
+    from harness import gen_dispatch as GD
+    from harness import gen_instances as G
+    from harness import impl_net as N
+    from harness import oracles as O
+    g = GD.Gen("quick", 0)
+    by_action = {}
+    for (version, pkg, mtype, action, name) in G.message_index():
+        if mtype == "Call":
+            by_action.setdefault(action, []).append(version)
+    order = []
+    for i, (action, versions) in enumerate(sorted(by_action.items())):
+        vs = sorted(versions)
+        order += [(v, action) for v in (vs if i % 2 == 0 else vs[::-1])]
+    n = 0
+    for (version, action) in order:
+        reqs = [i for i in g.instances(version, action, "req") if not i[2] and isinstance(i[1], dict)]
+        resps = [i for i in g.instances(version, action, "resp") if not i[2] and isinstance(i[1], dict)]
+        if not reqs or not resps:
+            continue
+        req, resp = reqs[1][1] if len(reqs) > 1 else reqs[0][1], resps[0][1]
+        try:
+            obj = N.make_request(version, action, GD.snake(req), False)
+        except TypeError:
+            continue            # reported by structure_never_fails
+        sresp = GD.snake(resp)
+        res = N.run_loopback(version, action, obj, lambda kw, _v=version, _a=action, _s=sresp: N.make_result(_v, _a, _s, False))
+        n += 1
+        rep.count("call-materialise:%s:%s" % (version, action))
+        out = res["outcome"]
+        want_cls = getattr(importlib.import_module("ocpp.%s.call_result" % N.modname(version)), action)
+        replay = {"kind": "materialise", "version": version, "action": action, "request": req, "response": resp,
+                  "order": [list(x) for x in order[:order.index((version, action)) + 1][-4:]]}
+        if out[0] != "result":
+            rep.violation("C11:materialise:%s:%s" % (version, action),
+                          "a schema-valid %s reply (OCPP %s) is not returned by call() as a result object: %r" % (action, version, out[:3]), replay)
+        elif type(out[3]) is not want_cls:
+            rep.violation("C11:materialise-class:%s:%s" % (version, action),
+                          "call() returned a %s.%s for an OCPP %s %s reply" % (type(out[3]).__module__, type(out[3]).__name__, version, action), replay)
+        elif not O.same_value(out[1], sresp):
+            rep.violation("C11:materialise-values:%s:%s" % (version, action),
+                          "the result object %r does not carry the reply %r" % (out[1], sresp), replay)
+    rep.coverage["materialised_through_call"] = n
+
+
 def body(rep, support_ok):
     found, n_pairs = items(rep)
     import dataclasses
@@ -92,6 +142,7 @@ def body(rep, support_ok):
                       {"kind": "table-item", "version": ver, "item": list(p), "theorem": "Props/%s.v" % PROP})
     if PROP == "C11":
         structure_never_fails(rep)
+        materialise_through_call(rep)
     rep.sample({"item": "v201 call_result.UpdateFirmware.status : UpdateFirmwareStatusEnumType vs schema enum"})
     rep.sample({"item": "v16 call.LogStatusNotification.request_id default None vs schema required ['status']"})
     # translator tie: the problem lists the Coq walk computes from the translated tables
@@ -116,6 +167,35 @@ def run(rep, tier, seed):
 
 
 def replay(d):
+    if d.get("kind") == "materialise":
+        import importlib
+        from harness import gen_dispatch as GD
+        from harness import impl_net as N
+        from harness import oracles as O
+        ok = True
+        for (version, action) in d.get("order") or [[d["version"], d["action"]]]:
+            last = (version, action) == (d["version"], d["action"])
+            if not last:
+                # the history that precedes it (the other version's call of the same or a neighbouring action)
+                try:
+                    from harness import gen_instances as G
+                    g = GD.Gen("quick", 0)
+                    rq = [i for i in g.instances(version, action, "req") if not i[2]][1][1]
+                    rs = [i for i in g.instances(version, action, "resp") if not i[2]][0][1]
+                    N.run_loopback(version, action, N.make_request(version, action, GD.snake(rq), False),
+                                   lambda kw, _v=version, _a=action, _s=GD.snake(rs): N.make_result(_v, _a, _s, False))
+                except Exception:  # noqa: BLE001
+                    pass
+                continue
+            sresp = GD.snake(d["response"])
+            res = N.run_loopback(version, action, N.make_request(version, action, GD.snake(d["request"]), False),
+                                 lambda kw: N.make_result(version, action, sresp, False))
+            out = res["outcome"]
+            want = getattr(importlib.import_module("ocpp.%s.call_result" % N.modname(version)), action)
+            ok = out[0] == "result" and type(out[3]) is want and O.same_value(out[1], sresp)
+            print("call() ->", out[:3], "class", type(out[3]).__module__ + "." + type(out[3]).__name__ if out[0] == "result" else None)
+        print("HOLDS" if ok else "FAILS")
+        return 0 if ok else 1
     found, _ = items(None)
     it = tuple(d.get("item", []))
     hit = [p for (ver, p) in found if tuple(map(str, p)) == tuple(map(str, it)) and ver == d.get("version")]
